@@ -529,7 +529,7 @@ func vfSWMatrixScheme(mode int) vfSWScheme {
 // outside: lengths >3 (H_C09_sw_dnafull4); other IUPAC codes, lower case; non-dyadic penalties
 // assumes: reference substitution scores from the published EDNAFULL/NUC.4.4 (5/-4, N: -2, N/N: -1)
 func H_C09_sw_dnafull() {
-	l1, l2 := vfSWLengths(1, 2)
+	l1, l2 := vfSWLengths(1, 3)
 	sc := vfSWMatrixScheme(vfSWModeDNAfull)
 	s1, s2 := vfSWSymPair(sc.mode, l1, l2)
 	vfSWCheck(sc, s1, s2, true, l1 <= 2 && l2 <= 2, false)
@@ -551,7 +551,7 @@ func H_C09_sw_dnafull4() {
 // outside: lengths >3 (H_C09_sw_blosum4); the other 19 BLOSUM62 letters; two all-W sequences (detected as nucleotides); lower case
 // assumes: reference substitution scores from the published BLOSUM62
 func H_C09_sw_blosum() {
-	l1, l2 := vfSWLengths(1, 2)
+	l1, l2 := vfSWLengths(1, 3)
 	sc := vfSWMatrixScheme(vfSWModeBlosum)
 	s1, s2 := vfSWSymPair(sc.mode, l1, l2)
 	vfSWCheck(sc, s1, s2, true, l1 <= 2 && l2 <= 2, false)
@@ -594,7 +594,7 @@ func vfSWDefaults(mode int) vfSWScheme {
 // assumes: the default penalties are -10 / -0.5 (EMBOSS water defaults, cmd/sw.go flags)
 func H_C09_sw_defaults() {
 	mode := nondetRange(vfSWModeDNAfull, vfSWModeBlosum)
-	l1, l2 := vfSWLengths(1, 2)
+	l1, l2 := vfSWLengths(1, 3)
 	sc := vfSWDefaults(mode)
 	s1, s2 := vfSWSymPair(sc.mode, l1, l2)
 	vfSWCheck(sc, s1, s2, false, l1 <= 2 && l2 <= 2, false)
